@@ -277,6 +277,9 @@ type Transport struct {
 	buf    [512]byte
 	// Scenario tag mixed into state hashes.
 	Tag string
+	// MaxAttempts caps the transmissions of one operation (0: 5000); beyond it
+	// Send panics with Runaway so the harness regains control.
+	MaxAttempts int
 	// Yield, if set, is called at the entry and exit of every Send so a
 	// controlled scheduler can interleave other threads there.
 	Yield func(where string)
@@ -329,6 +332,14 @@ func (t *Transport) Send(ctx context.Context, b []byte) ([]byte, error) {
 	}
 	ex := &Exchange{Req: append([]byte{}, b...), Op: t.Op, Attempt: t.Attempt}
 	t.Attempt++
+	if max := t.MaxAttempts; t.Attempt > max && max >= 0 {
+		if max == 0 && t.Attempt <= 5000 {
+			// default cap
+		} else {
+			// a retry loop that no answer of the environment ends: give control back
+			panic(Runaway{fmt.Sprintf("more than %d transmissions within one operation", t.Attempt-1)})
+		}
+	}
 	t.Log = append(t.Log, ex)
 	if t.Clock != nil && ctx.Value(RootKey) == nil {
 		ex.Err = ErrNotDescendant
